@@ -1378,6 +1378,11 @@ func (v *VMValue) SetSlice(ctx *Context, a, b, step IntType, val *VMValue) bool 
 	}
 
 	offset := len(arr2.List) - int(_b-_a)
+	if len(arr.List)+offset > 512 {
+		// 与区间、拼接、重复等其他构造数组的方式保持同样的长度上限
+		ctx.Error = errors.New("不能一次性创建过长的数组")
+		return false
+	}
 	newArr := make([]*VMValue, len(arr.List)+offset)
 
 	for i := IntType(0); i < _a; i++ {
